@@ -254,6 +254,25 @@ def r2_repair(program, rep):
     rep.check(ok, "C03-R2", qual(fn), "a tree with a dead link is repaired "
               "(avoid_dead_links on the same root and machine) before "
               "leaves are attached", construct="repair call", node=fn)
+    if ok:
+        # ... whenever it has one: nothing but that test stands between the
+        # generation of the tree and its repair
+        gen = [c for c in calls_in(fn, "ner_net")]
+        if len(gen) != 1:
+            raise AnalysisError("route: expected one ner_net(...) call")
+        gn = cfg.node_containing(gen[0])
+        before = [(plain(t), p) for t, p in T.all_facts(gn)]
+        extra = [(t, p) for t, p in T.all_facts(n)
+                 if (plain(t), p) not in before and
+                 not (p and t[:4] == test)]
+        rep.check(not extra, "C03-R2", qual(fn), "the repair depends on "
+                  "nothing but route_has_dead_links(root, machine)",
+                  construct="repair condition", node=av[0],
+                  fail="the repair of a tree with dead links is skipped "
+                       "unless also %s: a tree through a dead chip or link "
+                       "can be returned unrepaired" % "; ".join(
+                           "%s is %s" % (show(t)[:50], p)
+                           for t, p in extra[:2]))
     rh = program.get(NER + ":route_has_dead_links")
     R = Terms(rh)
     rp = formals(rh)
@@ -979,5 +998,8 @@ def check(program, rep):
     rep.guard("C03-R5", r5_reconnect, program, rep)
     rep.guard("C03-R6", r6_truncation, program, rep)
     rep.guard("C03-R7", r7_raises, program, rep)
+    # a tree shared between nets collects the leaves of both (C01-R3)
+    from . import C01
+    rep.guard("C01-R3", C01.tree_per_net, program, rep)
     return finish(rep, program, EXPLANATION, NOT_DECIDED,
                   trusted=["link vectors and opposites as verified by C11"])
